@@ -8,6 +8,7 @@ import ast
 
 from .core import Unsupported, find_def
 from .driver_py import dotted
+from .lazy import Inliner
 
 OUTPUTS = ["GenAccessors.v"]
 DEME, TREE = "pyhms/demes/abstract_deme.py", "pyhms/tree.py"
@@ -92,6 +93,14 @@ class PTr:
                 if v[1] in NIL:
                     return (f"(length {v[0]})", "nat")
             self.bad(e, "call")
+        if isinstance(e, ast.UnaryOp) and isinstance(e.op, ast.Not):
+            v = self.expr(e.operand, env)
+            if v[1] in NIL:
+                return (f"(is_nil {v[0]})", "bool")
+            if v[1] == "bool":
+                return (f"(negb {v[0]})", "bool")
+            if v[1] == "optind":
+                return (f"(negb (is_some {v[0]}))", "bool")
         if isinstance(e, ast.IfExp):
             c = self.expr(e.test, env)
             a, b = self.expr(e.body, env), self.expr(e.orelse, env)
@@ -113,11 +122,12 @@ DEME_PROPS = {"history": "gens", "all_individuals": "inds", "current_population"
 
 
 def prop_body(mod, cls, name, src):
+    """the value a property returns, with its local temporaries inlined (hv/translate/lazy.py)"""
     fn = find_def(mod, name, cls)
     body = [s for s in fn.body if not (isinstance(s, ast.Expr) and isinstance(s.value, ast.Constant))]
-    if len(body) != 1 or not isinstance(body[0], ast.Return):
-        raise Unsupported(f"{src}:{fn.lineno}: {cls}.{name} is not a single return")
-    return body[0].value
+    if not body or not isinstance(body[-1], ast.Return) or body[-1].value is None or any(isinstance(n, ast.Return) for s in body[:-1] for n in ast.walk(s)):
+        raise Unsupported(f"{src}:{fn.lineno}: {cls}.{name} is not straight-line code ending in one return")
+    return Inliner(fn, src).inline(body[-1].value, body[-1])
 
 
 def translate(repo):
